@@ -19,14 +19,17 @@ VARIANTS = {
     "plain": ["-O2", "-g1"],
     "vg":    ["-O1", "-g", "-DSIM_VALGRIND"],
     "cov":   ["-O0", "-g", "--coverage"],   # development aid: line coverage of the library by the harnesses (gcov)
+    # ThreadSanitizer probe of the OpenMP region: SimGOMP runs the team on real threads, a single rank runs inline
+    "tsan":  ["-O1", "-g", "-fsanitize=thread", "-DSIM_GOMP_THREADS"],
 }
 LINK = {
     "san":   ["-fsanitize=address,undefined"],
     "plain": [],
     "vg":    [],
     "cov":   ["--coverage"],
+    "tsan":  ["-fsanitize=thread"],
 }
-HARNESSES = ["c16_dispatch", "c06_parallel", "c13_container", "c17_workflow", "simtest"]
+HARNESSES = ["c16_dispatch", "c06_parallel", "c13_container", "c17_workflow", "c06_omp_tsan", "simtest"]
 
 
 def sha(*parts):
